@@ -71,6 +71,7 @@ type Cfg struct {
 	Sink         simsink.Config   `json:"sink"`
 	DLQ          *simsink.Config  `json:"dlq,omitempty"`
 	QuietBound   time.Duration    `json:"quiet_bound"`
+	StopAt       time.Duration    `json:"stop_at,omitempty"` // >0: Pipeline.Stop is called at this simulated instant
 }
 
 func (c *Cfg) SimCfg() *simrt.Config { return &c.Sim }
@@ -221,6 +222,15 @@ func (h *H) Gen(rng *rand.Rand, tier, prop string) core.Cfg {
 		c.Sim.Faults["time.stall"] = 0.0005
 		c.Sim.StallMax = 5 * time.Second
 	}
+	if (prop == "C01" || prop == "C02") && core.Chance(rng, 0.15) {
+		// the pipeline is stopped while the output may still be failing: nothing undelivered may be committed
+		c.StopAt = core.DurBetween(rng, 10*time.Millisecond, 3*time.Second)
+		if core.Chance(rng, 0.7) {
+			c.Sim.Faults["sink.fail"] = core.Pick(rng, 0.3, 0.7)
+			c.Sink.Retry = core.Pick(rng, -1, 3, 5)
+			c.Sink.Retention = core.DurBetween(rng, 10*time.Millisecond, time.Second)
+		}
+	}
 	c.Sim.QuietAt = 20 * time.Second // faults stop; the verdict is taken in the quiet phase
 	c.QuietBound = 120 * time.Second
 	return c
@@ -360,6 +370,7 @@ type run struct {
 	frontierExercised bool
 	sawDLQPendingAtMainCommit bool
 	evaluated bool
+	stopped bool
 	nestedHold bool
 	depth map[int]int
 	all []*ev
@@ -444,7 +455,15 @@ func (in *input) Commit(e *pipeline.Event) {
 	x := r.byPtr[e]
 	if x == nil {
 		r.viol("C02", "commit-of-unbound-event", "Commit for an event object that no accepted, unfinalized event owns (offset %d source %d): double commit or commit after drop", e.Offset, e.SourceID)
-		return
+		// which logical event is it? (its JSON is still there when the commit comes from the drop itself)
+		if e.Root != nil {
+			if idn := e.Root.Dig("id"); idn != nil {
+				x = r.byID[idn.AsInt()]
+			}
+		}
+		if x == nil || !x.bound {
+			return
+		}
 	}
 	r.commitsTotal++
 	step := simrt.Steps()
@@ -917,8 +936,19 @@ func (h *H) Run(cc core.Cfg, sim *simrt.Sim) *core.Outcome {
 			}
 			return true
 		}
+		if cfg.StopAt > 0 {
+			simrt.Go("stopper", func() {
+				simrt.Sleep(cfg.StopAt)
+				r.stopped = true
+				r.probes["pipeline-stopped"]++
+				p.Stop()
+			})
+		}
 		start := simrt.SimNow()
 		deadline := cfg.Sim.QuietAt + cfg.QuietBound + r.workloadTime()
+		if cfg.StopAt > 0 {
+			deadline = cfg.StopAt + 30*time.Second
+		}
 		for !quiet() && simrt.SimNow() < deadline {
 			simrt.Sleep(100 * time.Millisecond)
 		}
@@ -984,8 +1014,8 @@ func (r *run) evaluate() {
 	// an output that never acknowledges (unlimited retries + a batch scripted to
 	// fail for ever) legitimately holds everything back: no liveness verdicts
 	deadOutput := cfg.Sink.Retry < 0 && cfg.Sink.FailFirst > 0
-	if deadOutput {
-		return
+	if deadOutput || r.stopped {
+		return // a stopped pipeline finalizes nothing any more: only the online (safety) monitors apply
 	}
 	allFinal := true
 	// readers
@@ -1023,6 +1053,10 @@ func (r *run) evaluate() {
 			prop := "C04"
 			r.viol(prop, sig, "id %d (src %d stream %s) accepted at %v is neither committed nor dropped at %v: %s; streamer: %s", x.line.ID, x.line.Source, x.line.Stream, x.inCallT, simrt.SimNow(), where, r.dumpShort())
 			r.viol("C02", "unaccounted/"+where, "id %d (src %d stream %s) is neither committed nor dropped once the pipeline is idle: %s", x.line.ID, x.line.Source, x.line.Stream, where)
+			if where != "retry-pending" && where != "send-in-progress" {
+				// nothing is being sent or retried any more, yet the event still occupies the pool
+				r.viol("C05", "leak/"+where, "id %d (src %d stream %s) is still held by the pipeline (%s) long after the input went silent and the output finished: in-use never returns to zero (pool reports %d in use)", x.line.ID, x.line.Source, x.line.Stream, where, pipeline.VerifInUse(r.p))
+			}
 		}
 	}
 	if allFinal && len(r.inFlightIn) == 0 {
